@@ -146,6 +146,14 @@ type c13Env struct {
 	hcancel context.CancelFunc
 	err     error
 	broken  bool
+	routerBase []int // registry entries (all maps reachable from each router) before the session
+}
+
+func (env *c13Env) snapshotRouters() {
+	env.routerBase = env.routerBase[:0]
+	for _, r := range env.routers {
+		env.routerBase = append(env.routerBase, simrt.MapEntries(r))
+	}
 }
 
 func (env *c13Env) build(n *hNode) mocrelay.Handler {
@@ -352,6 +360,7 @@ func c13Run(t *testing.T, c *C13Case, cut int, mode c13Mode) *simrt.Result {
 			return
 		}
 		sim.Drive() // handler-level goroutines settle (SQLite bulk inserter)
+		env.snapshotRouters()
 		if env.broken {
 			// disk trouble: every transaction of the bulk inserter fails at BeginTx,
 			// so it sits in its 1s/2s/4s back-off and its queue fills up
@@ -427,8 +436,8 @@ func c13Run(t *testing.T, c *C13Case, cut int, mode c13Mode) *simrt.Result {
 		}
 		// O3: router registries empty again
 		for i, r := range env.routers {
-			if conns, subs := r.VerifRegistry(); conns != 0 || subs != 0 {
-				sim.Violate("C13", "router-registry-leak", nil, "router #%d still holds %d connection(s) with %d subscription(s) after the session ended", i, conns, subs)
+			if n := simrt.MapEntries(r); n != env.routerBase[i] {
+				sim.Violate("C13", "router-registry-leak", nil, "router #%d holds %d registry entries after the session ended, %d before it started", i, n, env.routerBase[i])
 			}
 		}
 		// O4: gauges back
